@@ -11,7 +11,7 @@ def make_scenario(rnd, big_ok=True):
     msgs = [scen.gen_message(rnd, big_ok=big_ok and nmsg <= 3) for _ in range(nmsg)]
     with_close = rnd.random() < 0.3
     if with_close:
-        code = rnd.choice([1000, 1001, 1002, 1003, 1007, 1008, 1009, 1010, 1011, 3000, 4999, None])
+        code = rnd.choice([1000, 1001, 1002, 1003, 1007, 1008, 1009, 1010, 1011, 1012, 1013, 3000, 4999, None])
         reason = b"" if code is None else scen.rand_text(rnd, rnd.choice([0, 1, 5, 123]))
         msgs.append(("close", ref6455.close_payload(code, reason)))
     frames, completed = scen.wire_plan(rnd, msgs)
